@@ -509,8 +509,8 @@ def check(run: Run, prog: Program):
                  "cache_state_defs": len(defs),
                  "counters": sorted(cm.counters),
                  "trees_built": len(prog._tree_cache)}
-    run.floor("Cached subclasses", len(cm.classes), 25)
-    run.floor("cached methods", len(all_cached), 60)
+    run.floor("Cached subclasses", len(cm.classes), 25, hard=True)
+    run.floor("cached methods", len(all_cached), 60, hard=True)
     run.floor("mutation counters", len(cm.counters), 6)
     run.floor("__cache_state__ definitions", len(defs), 10)
     return cm
